@@ -7,21 +7,44 @@ thread_local! {
     static LIVE: Cell<i64> = const { Cell::new(0) };
 }
 
+/// process-wide live-byte counter, off by default (one shared cache line would slow the parallel checks down); switched on only
+/// by the pool memory sub-check of C11, which runs alone
+static GLOBAL_ON: std::sync::atomic::AtomicBool = std::sync::atomic::AtomicBool::new(false);
+static GLOBAL_LIVE: std::sync::atomic::AtomicI64 = std::sync::atomic::AtomicI64::new(0);
+pub fn global_enable(on: bool) {
+    GLOBAL_ON.store(on, std::sync::atomic::Ordering::SeqCst);
+}
+pub fn global_on() -> bool {
+    GLOBAL_ON.load(std::sync::atomic::Ordering::Relaxed)
+}
+pub fn global_live() -> i64 {
+    GLOBAL_LIVE.load(std::sync::atomic::Ordering::SeqCst)
+}
+#[inline]
+fn g(delta: i64) {
+    if GLOBAL_ON.load(std::sync::atomic::Ordering::Relaxed) {
+        GLOBAL_LIVE.fetch_add(delta, std::sync::atomic::Ordering::Relaxed);
+    }
+}
+
 pub struct Counting;
 
 unsafe impl GlobalAlloc for Counting {
     unsafe fn alloc(&self, l: Layout) -> *mut u8 {
         let _ = ALLOCATED.try_with(|c| c.set(c.get() + l.size() as u64));
         let _ = LIVE.try_with(|c| c.set(c.get() + l.size() as i64));
+        g(l.size() as i64);
         System.alloc(l)
     }
     unsafe fn dealloc(&self, p: *mut u8, l: Layout) {
         let _ = LIVE.try_with(|c| c.set(c.get() - l.size() as i64));
+        g(-(l.size() as i64));
         System.dealloc(p, l)
     }
     unsafe fn realloc(&self, p: *mut u8, l: Layout, new: usize) -> *mut u8 {
         let _ = ALLOCATED.try_with(|c| c.set(c.get() + new as u64));
         let _ = LIVE.try_with(|c| c.set(c.get() + new as i64 - l.size() as i64));
+        g(new as i64 - l.size() as i64);
         System.realloc(p, l, new)
     }
 }
